@@ -11,12 +11,14 @@ Part "hist" (SEQ)  BFS to a fixpoint (+ all unmerged sequences to a depth) over 
                                         lazily built cache object
   for the built-in media cache and for a Django-configured one (COMPONENTS.cache).  After **every**
   step all component-cache URLs of the output (``loadedJsUrls`` / ``loadedCssUrls`` in document
-  mode, ``toLoadJsTags`` / ``toLoadCssTags`` in fragment mode) are extracted and, together with every
-  URL emitted since the last eviction, fetched through ``django.test.Client``.
-  Oracle: an emitted URL names one of the rendered classes; GET -> 200, body == that class'
-  ``js`` / ``css`` (stripped or verbatim), content type text/javascript / text/css.  URLs whose
-  guarantee lapsed (evicted after they were emitted) must give 404 or the right body - never
-  5xx, never other code.
+  mode, ``toLoadJsTags`` / ``toLoadCssTags`` in fragment mode) are extracted and fetched through
+  ``django.test.Client`` at once; every *other* URL of the finite universe (js/css of every class + the
+  two variables files of V) is fetched as well.
+  Oracle: an emitted URL names one of the harness' classes; GET -> 200, body == that class'
+  ``js`` / ``css`` (stripped or verbatim), content type text/javascript / text/css.  URLs the step did
+  not announce must give 404 or the right body - never 5xx, never other code.
+  State (canon) = which scripts are in the media cache (probed with has_key), whether the lazily built
+  cache object exists, which pre-rendered html is kept.
 Part "shapes" (ENUM)  all classes with js, css in {None, "", blank, code, padded code} x
   document/fragment x first/second render: same oracle.
 Part "requests" (ENUM)  full product hash x kind x input-hash x method in two cache states:
@@ -593,15 +595,17 @@ def run(ctx):
     thorough = ctx.tier == "thorough"
     ev.rule = (
         "SEQ over render / pre-render / slot-insert / clear / evict / recreate histories on the real library (state = media-cache "
-        "keys + kept html + URLs under guarantee); every URL announced by an output is fetched through django.test.Client; "
-        "non-trivial = states with at least one announced URL under guarantee (hist), renders that announce a URL (shapes), "
+        "keys + cache object present + kept html); every URL announced by an output is fetched through django.test.Client; "
+        "non-trivial = states with at least one script in the media cache (hist), renders that announce a URL (shapes), "
         "requests that address cached code (requests)"
     )
     depth = 4 if thorough else 3
     nops = len(hist_ops())
     # one pool for everything; the long BFS tasks go first
     tasks = [("bfs", cfg) for cfg in CACHE_CFGS] + [("requests", 0), ("shapes", 0)]
-    tasks += [("unmerged", (cfg, depth, first)) for cfg in (CACHE_CFGS if thorough else CACHE_CFGS[:1]) for first in range(nops)]
+    tasks += [("unmerged", (CACHE_CFGS[0], depth, first)) for first in range(nops)]
+    if thorough:  # the configured cache one level shallower (21^4 sequences x 2 would not fit the time budget)
+        tasks += [("unmerged", (CACHE_CFGS[1], depth - 1, first)) for first in range(nops)]
     out = par.run_tasks(_dispatch, tasks)
     # --- history BFS
     seen_by = {}
@@ -640,7 +644,8 @@ def run(ctx):
         if extra and not fnd.violations and not fnd.known_hits:
             raise par.HarnessError(f"canonicalisation unsound ({cfg}): unmerged search reached {len(extra)} states the BFS did not")
         ev.add_part(f"hist_unmerged:{cfg}", states=d["seq"], transitions=d["tr"], validated=d["tr"],
-                    nontrivial=sum(1 for k in d["canon"] if k[0] or k[1]), observed_distinct=len(d["out"]), bound={"depth": depth})
+                    nontrivial=sum(1 for k in d["canon"] if k[0] or k[1]), observed_distinct=len(d["out"]),
+                    bound={"depth": depth if cfg == CACHE_CFGS[0] else depth - 1})
     # --- shapes and requests
     for (kind, _), res in zip(tasks, out):
         if kind == "shapes":
